@@ -3501,12 +3501,8 @@ HMCPendaccess(accrec_t *access_rec /* IN:  access record to close */)
 
 done:
     if (ret_value == FAIL) { /* Error condition cleanup */
-        if (access_rec != NULL) {
-            /* the access id is gone in any case: detach from the file as well */
-            if (!BADFREC(file_rec))
-                file_rec->attach--;
+        if (access_rec != NULL)
             HIrelease_accrec_node(access_rec);
-        }
     }
 
     return ret_value;
